@@ -40,6 +40,7 @@ type Harness struct {
 	TimeCapS      int               `json:"timecap_s,omitempty"`
 	ConcreteMake  bool              `json:"concrete_make,omitempty"`
 	NoWitness     bool              `json:"nowitness,omitempty"`
+	OOBHook       string            `json:"oobhook,omitempty"` // harness function called with the size of an allocation beyond the buffer bound
 	SharedWrites  bool              `json:"-"` // report writes of the code under test to package-level memory (C16/C17 checks)
 	PropsThorough []string          `json:"props_thorough,omitempty"`
 }
